@@ -56,6 +56,8 @@ def main():
                 cmd = cmd.replace("go test", "go test " + " ".join(ov), 1)
             rc0, o0 = sh("export GOFLAGS=-mod=mod GOPROXY=off; " + cmd, cwd=wt)
             rca, oa = sh(["git", "apply", os.path.join(d, "patch.diff")], cwd=wt)
+            if overlay:
+                sh(["python3", "/tmp/mut-ov/mk.py", wt])  # contract/contract.go is copied into the overlay: refresh it
             rc1, o1 = sh("export GOFLAGS=-mod=mod GOPROXY=off; " + cmd, cwd=wt)
             # existing tests of touched packages (without the demo file)
             if demo_path.endswith(".go"):
